@@ -275,3 +275,92 @@ func verifLemmaOrder(a, b, c Endpoint) (irrefl, trans, total bool) {
 	total = n == 1
 	return
 }
+
+// ---- packet.go: the packet builder is write-once / append-only (C03, C01) ---------------------------
+
+//@ func (p *packet) AddLayer(l Layer)
+//@   props C03 C01
+//@   ensures len(p.layers) == old(len(p.layers)) + 1 && p.layers[len(p.layers)-1] == l && p.last == l
+//@   ensures forall i int :: 0 <= i && i < old(len(p.layers)) ==> p.layers[i] == old(p.layers[i])
+//@   modifies packet.layers packet.last elem:gopacket.Layer alloc
+
+//@ func (p *packet) SetLinkLayer(l LinkLayer)
+//@   props C03
+//@   ensures p.link == (old(p.link) != nil ? old(p.link) : l)
+//@   modifies packet.link
+
+//@ func (p *packet) SetNetworkLayer(l NetworkLayer)
+//@   props C03
+//@   ensures p.network == (old(p.network) != nil ? old(p.network) : l)
+//@   modifies packet.network
+
+//@ func (p *packet) SetTransportLayer(l TransportLayer)
+//@   props C03
+//@   ensures p.transport == (old(p.transport) != nil ? old(p.transport) : l)
+//@   modifies packet.transport
+
+//@ func (p *packet) SetApplicationLayer(l ApplicationLayer)
+//@   props C03
+//@   ensures p.application == (old(p.application) != nil ? old(p.application) : l)
+//@   modifies packet.application
+
+//@ func (p *packet) SetErrorLayer(l ErrorLayer)
+//@   props C03 C01
+//@   ensures p.failure == (old(p.failure) != nil ? old(p.failure) : l)
+//@   modifies packet.failure
+
+//@ func (p *packet) SetTruncated()
+//@   props C03
+//@   ensures p.metadata.Truncated
+//@   modifies PacketMetadata.Truncated
+
+//@ func (p *lazyPacket) NextDecoder(next Decoder) error
+//@   props C03
+//@   ensures next != nil ==> result == nil && p.next == next
+//@   ensures next == nil ==> result != nil && p.next == old(p.next)
+//@   modifies lazyPacket.next
+
+//@ func (p *eagerPacket) LinkLayer() LinkLayer
+//@   props C03
+//@   ensures result == p.link
+//@   modifies nothing
+//@ func (p *eagerPacket) NetworkLayer() NetworkLayer
+//@   props C03
+//@   ensures result == p.network
+//@   modifies nothing
+//@ func (p *eagerPacket) TransportLayer() TransportLayer
+//@   props C03
+//@   ensures result == p.transport
+//@   modifies nothing
+//@ func (p *eagerPacket) ApplicationLayer() ApplicationLayer
+//@   props C03
+//@   ensures result == p.application
+//@   modifies nothing
+//@ func (p *eagerPacket) ErrorLayer() ErrorLayer
+//@   props C03
+//@   ensures result == p.failure
+//@   modifies nothing
+//@ func (p *eagerPacket) Layers() []Layer
+//@   props C03
+//@   ensures sameSlice(result, p.layers)
+//@   modifies nothing
+
+// Lazy accessors: same answer as the eager accessor on the final state, and a nil answer only when decoding is complete.
+//@ func (p *lazyPacket) LinkLayer() LinkLayer
+//@   props C03
+//@   ensures result == p.link && (result == nil ==> p.next == nil)
+//@ func (p *lazyPacket) NetworkLayer() NetworkLayer
+//@   props C03
+//@   ensures result == p.network && (result == nil ==> p.next == nil)
+//@ func (p *lazyPacket) TransportLayer() TransportLayer
+//@   props C03
+//@   ensures result == p.transport && (result == nil ==> p.next == nil)
+//@ func (p *lazyPacket) ApplicationLayer() ApplicationLayer
+//@   props C03
+//@   ensures result == p.application && (result == nil ==> p.next == nil)
+//@ func (p *lazyPacket) ErrorLayer() ErrorLayer
+//@   props C03
+//@   ensures result == p.failure && (result == nil ==> p.next == nil)
+//@ func (p *lazyPacket) Layers() []Layer
+//@   props C03
+//@   ensures sameSlice(result, p.layers) && p.next == nil
